@@ -254,6 +254,7 @@ func chainChild() {
 	// every loaded handler is wrapped: a nil response must come with stop (C13)
 	var nilNoStop []int
 	var nnsMu sync.Mutex
+	var last6 dhcpv6.DHCPv6
 	for i := range h4 {
 		i, h := i, h4[i]
 		h4[i] = func(req, resp *dhcpv4.DHCPv4) (*dhcpv4.DHCPv4, bool) {
@@ -270,6 +271,9 @@ func chainChild() {
 		i, h := i, h6[i]
 		h6[i] = func(req, resp dhcpv6.DHCPv6) (dhcpv6.DHCPv6, bool) {
 			r, stop := h(req, resp)
+			if job.Pre {
+				last6 = r
+			}
 			if r == nil && !stop {
 				nnsMu.Lock()
 				nilNoStop = append(nilNoStop, i)
@@ -412,6 +416,7 @@ func chainChild() {
 		emit(map[string]any{"begin": i})
 		rec.reset()
 		pre4, pre6, preSet = nil, nil, false
+		last6 = nil
 		t0 := time.Now()
 		var caps []server.VerifCapture
 		rr := ReqRes{I: i}
@@ -478,19 +483,22 @@ func chainChild() {
 			}
 			rr.Frames = sniff.collect(wait)
 		}
+		if job.Pre && rq.V6 && last6 != nil {
+			if m, ok := last6.(*dhcpv6.Message); ok {
+				for _, o := range m.Options.Options {
+					if len(o.ToBytes()) > 65535 {
+						rr.OversizeOpts = append(rr.OversizeOpts, int(o.Code()))
+					}
+				}
+			}
+		}
+		last6 = nil
 		if job.Pre && preSet {
 			if rq.V6 {
 				if pre6 == nil {
 					rr.PreNil = true
 				} else {
 					rr.Pre6 = hex.EncodeToString(pre6.ToBytes())
-					if m, ok := pre6.(*dhcpv6.Message); ok {
-						for _, o := range m.Options.Options {
-							if len(o.ToBytes()) > 65535 {
-								rr.OversizeOpts = append(rr.OversizeOpts, int(o.Code()))
-							}
-						}
-					}
 				}
 			} else {
 				if pre4 == nil {
